@@ -3,6 +3,7 @@ import OmplModel.Proofs.InterleaveInst
 import OmplModel.Proofs.InterleavePrrt
 import OmplModel.Proofs.InterleaveSchedules
 import OmplModel.Proofs.InterleaveRound2
+import OmplModel.Proofs.InterleavePrrtRun
 /-!
 # C19 — concurrent use through the documented thread-safe surface is race-free
 
@@ -548,4 +549,122 @@ example : (prrtRun demoEnv [[9, 9], [9]] [0, 0, 1, 0, 1, 1, 1, 0, 0, 0, 0, 0]).t
     [(0, none), (2, some 0), (2, some 0), (4, some 2)] := by decide
 example : (prrtRun demoEnv [[9, 9], [9]] [0, 0, 1, 0, 1, 1, 1, 0, 0, 0, 0, 0]).sol = some 4 := by decide
 
+/-! ## pRRT: what `solve()` reports (round 10; `report` mirrors the epilogue of `pRRT::solve`, and `drv_conc` replays
+recorded runs of the real planner on these very definitions) -/
+
+/-- **The reported path is a real path**, for every scheduler (complete or not) of any thread family over the worker
+steps: it starts at the start state, ends at the state `solve()` walked back from — the exact solution, which
+satisfies the goal, or else the approximate one — and every consecutive pair of states is a motion the validity
+oracle accepted.  (The parent walk is fuel-bounded in the model; part of the claim is that the fuel always suffices.) -/
+theorem prrt_report_path_valid {S D : Type} [DecidableEq S] (e : PEnv S D) (hsel : ∀ l x, l ≠ [] → e.sel l x ∈ l)
+    (ts : List (List (PStep S))) (is : List Nat) (r : Report S D)
+    (hr : report (exec (PStep.apply e) ts (PStore.init e) is) = some r) :
+    r.path.head? = some e.root ∧
+    (∃ c, r.path.getLast? = some c ∧
+      (if r.approximate then (exec (PStep.apply e) ts (PStore.init e) is).sol = none ∧
+          (exec (PStep.apply e) ts (PStore.init e) is).approx = some c
+        else (exec (PStep.apply e) ts (PStore.init e) is).sol = some c ∧ e.goal c = true)) ∧
+    ∀ a b, [a, b] <:+: r.path → e.valid a b = true := by
+  obtain ⟨inv, hg⟩ : PInv e (exec (PStep.apply e) ts (PStore.init e) is) ∧
+      Grown e.root (exec (PStep.apply e) ts (PStore.init e) is).tree :=
+    exec_preserves (PStep.apply e) (fun s => PInv e s ∧ Grown e.root s.tree) (grown_step e hsel) ts is _ (grown_init e)
+  generalize exec (PStep.apply e) ts (PStore.init e) is = s at hr inv hg
+  have key : ∀ c, c ∈ nodes s.tree → (solutionPath s.tree c).head? = some e.root ∧
+      (solutionPath s.tree c).getLast? = some c ∧ ∀ a b, [a, b] <:+: solutionPath s.tree c → e.valid a b = true := by
+    intro c hc
+    obtain ⟨h1, h2, h3⟩ := solutionPath_spec hg c hc
+    exact ⟨h1, h2, fun a b hab => (inv.answers_true _ _ _ (inv.edge_valid b a (h3 a b hab))).symm⟩
+  simp only [report] at hr
+  cases hs : s.sol with
+  | some c =>
+    rw [hs] at hr
+    cases hr
+    obtain ⟨hin, hgoal⟩ := inv.sol_in c hs
+    obtain ⟨h1, h2, h3⟩ := key c hin
+    exact ⟨h1, ⟨c, h2, by simp [hgoal]⟩, h3⟩
+  | none =>
+    rw [hs] at hr
+    cases ha : s.approx with
+    | none => rw [ha] at hr; cases hr
+    | some c =>
+      rw [ha] at hr
+      cases hr
+      obtain ⟨h1, h2, h3⟩ := key c (inv.approx_in c ha)
+      exact ⟨h1, ⟨c, h2, by simp⟩, h3⟩
+
+example : (report (prrtRun demoEnv [[9, 9], [9]] [0, 0, 1, 0, 1, 1, 1, 0, 0, 0, 0, 0])).map
+    (fun r => (r.approximate, r.difference, r.path)) = some (false, none, [0, 2, 4]) := by decide
+example : (report (prrtRun demoEnv [[9]] [0, 0, 0, 0])).map
+    (fun r => (r.approximate, r.difference, r.path)) = some (true, some 2, [0, 2]) := by decide
+
+/-- **The reported difference belongs to the reported path**: an approximate report carries the goal distance of the
+very state its path ends at (the two `SolutionInfo` fields are written in one guarded step), an exact report records
+none (`addSolutionPath` stores the difference only `if (approximate)`).  Every scheduler, any thread family. -/
+theorem prrt_report_difference {S D : Type} [DecidableEq S] (e : PEnv S D) (hsel : ∀ l x, l ≠ [] → e.sel l x ∈ l)
+    (ts : List (List (PStep S))) (is : List Nat) (r : Report S D)
+    (hr : report (exec (PStep.apply e) ts (PStore.init e) is) = some r) :
+    if r.approximate then ∃ c, r.path.getLast? = some c ∧ r.difference = some (e.dist c) else r.difference = none := by
+  obtain ⟨c, hlast, hc⟩ := (prrt_report_path_valid e hsel ts is r hr).2.1
+  have hai : ApproxInv e (exec (PStep.apply e) ts (PStore.init e) is) :=
+    exec_preserves (PStep.apply e) (ApproxInv e) (approxInv_step e) ts is _ (by intro _; simp [PStore.init])
+  generalize exec (PStep.apply e) ts (PStore.init e) is = s at hr hc hai
+  simp only [report] at hr
+  cases hs : s.sol with
+  | some c' => rw [hs] at hr; cases hr; simp
+  | none =>
+    rw [hs] at hr
+    cases ha : s.approx with
+    | none => rw [ha] at hr; cases hr
+    | some c' =>
+      rw [ha] at hr
+      cases hr
+      simp only [↓reduceIte] at hc ⊢
+      have := hai hs
+      rw [ha] at this
+      obtain ⟨_, hc2⟩ := hc
+      rw [ha] at hc2
+      cases hc2
+      exact ⟨c, hlast, this⟩
+
+/-- **The exact solution carries its own goal distance** (strengthens `prrt_solution_consistent`, which only said "of
+some goal state"): whenever `solution` is set, `approxdif` is the distance of THAT state — a later non-goal update
+cannot replace it when the goal is a region.  Every scheduler, any thread family. -/
+theorem prrt_solution_carries_its_distance {S D : Type} (e : PEnv S D)
+    (hgoal : ∀ a b, e.goal a = true → e.lt (e.dist b) (e.dist a) = true → e.goal b = true)
+    (ts : List (List (PStep S))) (is : List Nat) (c : S)
+    (hc : (exec (PStep.apply e) ts (PStore.init e) is).sol = some c) :
+    e.goal c = true ∧ (exec (PStep.apply e) ts (PStore.init e) is).approxdif = some (e.dist c) :=
+  exec_preserves (PStep.apply e) (SolOwnDiff e) (solOwnDiff_step e hgoal) ts is _
+    (by intro c hc; simp [PStore.init] at hc) c hc
+
+example : (prrtRun demoEnv [[9, 9], [9]] [0, 0, 1, 0, 1, 1, 1, 0, 0, 0, 0, 0]).approxdif = some 0 := by decide
+
+/-- **The approximate solution is the closest state any worker brought to the update**: while no exact solution is
+set, no state on which a worker executed its solution update is strictly closer to the goal than `approxdif` — under
+every scheduler, complete or not (`lt` irreflexive and transitive, as `<` on doubles is).  `updatedCands` lists those
+states along the executed step sequence; in the code every added state reaches the update in the same loop iteration
+(the replay check `judge_trace` observes `A` followed by `G` on every worker). -/
+theorem prrt_approx_is_closest {S D : Type} (e : PEnv S D) (hirr : ∀ a, e.lt a a = false)
+    (htr : ∀ a b c, e.lt a b = true → e.lt b c = true → e.lt a c = true)
+    (ts : List (List (PStep S))) (is : List Nat)
+    (hs : (exec (PStep.apply e) ts (PStore.init e) is).sol = none) :
+    ∀ c ∈ updatedCands e (trace ts is) (PStore.init e),
+      ∃ d, (exec (PStep.apply e) ts (PStore.init e) is).approxdif = some d ∧ e.lt (e.dist c) d = false := by
+  have h := closest_run e hirr htr (trace ts is) (PStore.init e) [] (by intro _ c hc; simp at hc)
+  simpa [exec] using h hs
+
+example : updatedCands demoEnv (trace (workers [[9], [1]]) [0, 0, 0, 0, 1, 1, 1, 1]) (PStore.init demoEnv) = [2, 1] ∧
+    (prrtRun demoEnv [[9], [1]] [0, 0, 0, 0, 1, 1, 1, 1]).sol = none ∧
+    (prrtRun demoEnv [[9], [1]] [0, 0, 0, 0, 1, 1, 1, 1]).approx = some 2 ∧
+    (prrtRun demoEnv [[9], [1]] [0, 0, 0, 0, 1, 1, 1, 1]).approxdif = some 2 := by decide
+
+/-- **The environment the replay driver runs meets the hypothesis of the pRRT theorems**: the brute-force nearest
+neighbour (`nearestOf`, what `nn_->nearest` must answer; the real answer is accepted as a hint only when it is a tree
+node at exactly the minimal distance) returns a tree node, for every validity table, hint, range, threshold and goal — so `prrt_tree_inv_all_schedules`, `prrt_solution_path_real` and `prrt_report_path_valid` apply to
+`rvEnv` as instantiated by `drv_conc`, with no assumption left about the selection. -/
+theorem prrt_rv_env_sel_mem (p : RvParams) (tab : ValidTable) (hint : Option Vec) :
+    ∀ l x, l ≠ [] → (rvEnv p tab hint).sel l x ∈ l :=
+  fun l x h => nearestHinted_mem hint l x h
+
+example : (rvEnv ⟨0.0, 0.0, [], []⟩ []).sel [[7]] [9] = [7] := by simp [rvEnv, nearestHinted, nearestOf, nearestFrom]
 end OmplModel.Props.C19
